@@ -201,6 +201,76 @@ return ((fmt, lits, back, LRE.failed), (pre_n + '___RBQL_STRING_LITERAL0___' + p
                                                   'bounds': 'every literal content of length %d without %s, backslash, LF%s; context %r ... %r' % (L, quote, ' (plus an escaped quote)' if escaped else '', pre_text, post_text)})
 
 
+def _literal_pair_obl(quote, L, nbs, timeout):
+    """Two literals of the same quote style; the first one ENDS in nbs (even) backslashes, i.e. in escaped backslashes: its closing quote is
+    a closing quote.  With nbs odd the quote after them is escaped and the literal goes on to the next quote."""
+    params, pre, cexpr = str_params('c', L)
+    q = ord(quote)
+    pre += ['%s != %d and %s != 92 and %s != 10' % (n, q, n, n) for n, _t in params]
+    if not params:
+        params, pre = [('dummy', 'int')], ['dummy == 0']
+    body = indent('''
+c = %s
+if NBS %% 2 == 0:
+    lit1 = QUOTE + c + chr(92) * NBS + QUOTE
+    lit2 = QUOTE + 'x,*,y' + c + QUOTE
+else:
+    lit1 = QUOTE + c + chr(92) * NBS + QUOTE + ' as q,' + QUOTE     # ONE literal: the inner quote is escaped
+    lit2 = QUOTE + c + ' where ' + QUOTE
+query = 'select a1, ' + lit1 + ', ' + lit2 + chr(9) + 'where a2'
+fmt, lits = rbql_engine.separate_string_literals(query)
+back = rbql_engine.combine_string_literals(fmt, lits)
+return ((fmt, lits, back, LRE.failed), ('select a1, ___RBQL_STRING_LITERAL0___, ___RBQL_STRING_LITERAL1___ where a2', [lit1, lit2], 'select a1, ' + lit1 + ', ' + lit2 + ' where a2', 0))
+''' % cexpr)
+    imports = 'QUOTE = %r\nNBS = %d\n' % (quote, nbs)
+    extra = 'from vf import relower\nLRE = relower.LoweringRe()\nrbql_engine.re = LRE\n'
+    src = harness(imports, params, pre, body, extra_defs=extra)
+    return Obl('literal_pair[%s,len=%d,backslashes=%d]' % ('dq' if quote == '"' else 'sq', L, nbs), src, timeout=timeout,
+               meta={'function': 'rbql_engine.separate_string_literals / combine_string_literals',
+                     'bounds': 'two literals of one quote style, the first ending in %d backslashes; every other content of length %d without %s, backslash, LF' % (nbs, L, quote)})
+
+
+# characters that some str method treats as white space or as a line boundary (str.splitlines, str.strip, str.split) -- inside a literal they are content
+LITERAL_CLASS = (9, 11, 12, 28, 29, 30, 31, 32, 133, 160, 0x1680, 0x2000, 0x2028, 0x2029, 0x202f, 0x205f, 0x3000, 35, 59, 97)
+
+
+def _literal_class_obl(quote, shape, timeout):
+    """End to end with literal content over the CLASS alphabet above (solver-enumerated, concrete per path: the query text is then a plain
+    string and the whole parser, code generator and the generated code run on real values)."""
+    body = indent('''
+c = chr(qh.concretize(n0, CLASS))
+content = 'p' + c + 'q'
+lit = QUOTE + content + QUOTE
+x0 = content if s0 else 'pq'
+x1 = content if s1 else c
+if SHAPE == 'select':
+    query = 'select ' + lit + ', a1'
+    exp = [[content, x] for x in (x0, x1)]
+elif SHAPE == 'multiline':
+    query = 'select a1,' + chr(10) + '  ' + lit + chr(10) + 'where a1 != ' + lit + ' ;'
+    exp = [[x, content] for x in (x0, x1) if x != content]
+elif SHAPE == 'where':
+    query = 'select NR where a1 == ' + lit
+    exp = [[i + 1] for i, x in enumerate((x0, x1)) if x == content]
+else:
+    query = 'update set a1 = ' + lit + ' where NR == 2'
+    exp = [[x0], [content]]
+T = [[x0], [x1]]
+out = []
+try:
+    rbql_engine.query_table(query, T, out, [])
+    got = ('ok', out)
+except Exception as e:
+    got = ('err', type(e).__name__, str(e))
+return (got, ('ok', exp))
+''')
+    params = [('n0', 'int'), ('s0', 'bool'), ('s1', 'bool')]
+    pre = ['n0 in %r' % (LITERAL_CLASS,)]
+    src = harness('from vf import qh\nQUOTE = %r\nSHAPE = %r\nCLASS = %r\n' % (quote, shape, LITERAL_CLASS), params, pre, body)
+    return Obl('literal_class[%s,%s]' % ('dq' if quote == '"' else 'sq', shape), src, timeout=timeout,
+               meta={'function': 'rbql_engine.query_table', 'bounds': 'literal content p<c>q with c over the %d-member class alphabet %r; 2x1 table whose cells are the content or not (symbolic bools)' % (len(LITERAL_CLASS), LITERAL_CLASS)})
+
+
 HOSTILE_LITERALS = ['select', ' where ', 'a1', '*', 'order by a1', '#', ';', 'x, y', ' join b on a1 == b1', '= ', ' limit 1', ' from a', 'update set', 'distinct count', 'top 1 ', '(', ')]', 'a.*',
                     'b1 == a1', ' with (header)', 'group by', ' as x', 'except a1', 'NR', '\t', '==', "it's", 'say "hi"']
 
@@ -247,6 +317,12 @@ def obligations(tier, seed):
             obs.append(_literal_lemma_obl(quote, L, pre_t, post_t, False, 200 if quick else 1200))
         for L in ((1,) if quick else (0, 1, 2)):
             obs.append(_literal_lemma_obl(quote, L, 'select a1, ', ' where a1', True, 200 if quick else 1200))
+    for quote in ('"', "'"):
+        for nbs in ((2, 3) if quick else (1, 2, 3, 4)):
+            for L in ((0, 1) if quick else (0, 1, 2)):
+                obs.append(_literal_pair_obl(quote, L, nbs, 200 if quick else 1200))
+        for shape in ('select', 'multiline', 'where', 'update'):
+            obs.append(_literal_class_obl(quote, shape, 300 if quick else 1200))
     for i, c in enumerate(HOSTILE_LITERALS):
         for qi, quote in enumerate(('"', "'")):
             if quick and (i + qi + seed) % 2:
